@@ -218,6 +218,31 @@ func (fr *Frame) evalCall(st *State, call *ast.CallExpr, nWant int) []*Term {
 		}
 	}
 	// function value
+	if id, ok := call.Fun.(*ast.Ident); ok && fr.top.fc != nil && len(fr.top.fc.CallPre[id.Name]) > 0 {
+		// call-site clauses may name a function-typed parameter or variable
+		var args []*Term
+		for i, a := range call.Args {
+			args = append(args, fr.evalAs(st, a, paramType(sig, i)))
+		}
+		for i, c := range fr.top.fc.CallPre[id.Name] {
+			if len(c.Params) != len(args) {
+				continue
+			}
+			b := map[string]*SVal{}
+			for j, p := range c.Params {
+				b[p] = &SVal{T: args[j], Ty: paramType(sig, j)}
+			}
+			g := fr.top.evalSpecBool(st, c.Expr, b, fr.top.entry)
+			name := c.Name
+			if name == "" {
+				name = fmt.Sprintf("%d", i+1)
+			}
+			e.oblige(fr, st, "callpre:"+id.Name+"#"+name, "", fr.site("callpre", call), g, call, c, "")
+			st.Assume(g)
+		}
+		e.note("call through function value %s: results unconstrained, no heap effect assumed", exprString(call.Fun))
+		return fr.freshResults(st, sig, "fv")
+	}
 	for _, a := range call.Args {
 		fr.evalIgnore(st, a)
 	}
@@ -921,7 +946,23 @@ func (fr *Frame) applyContract(st *State, fc *FuncContract, fn *types.Func, sig 
 	// havoc modifies
 	if fc.Options["noframe"] != "" {
 		// the callee's frame is not checked: assume nothing survives the call
+		keep := map[string]*Term{}
+		if fr.top.fc != nil {
+			// `option stableghost g..`: listed assumption that un-framed callees of this function leave ghost g alone
+			for _, g := range strings.Fields(fr.top.fc.Options["stableghost"]) {
+				if v, ok := st.heap["ghost:"+g]; ok {
+					keep["ghost:"+g] = v
+				} else if gv, ok := e.cs.Vars[g]; ok {
+					c := &specCtx{e: e, pkgPath: gv.PkgPath}
+					srt, _ := c.sortOfTypeStr(gv.Type)
+					keep["ghost:"+g] = e.Heap(st, "ghost:"+g, srt)
+				}
+			}
+		}
 		e.havocAll(st)
+		for k, v := range keep {
+			st.heap[k] = v
+		}
 	}
 	for _, m := range fc.Modifies {
 		fr.havocModItem(st, m, b, pkgPath, call)
@@ -1152,6 +1193,40 @@ func (fr *Frame) runDefers(st *State, base int) []*State {
 		}
 	}
 	return cur
+}
+
+// execDetachedClosure runs the body of a function literal on a copy of the state with arbitrary
+// arguments; only the obligations it generates are kept.
+func (fr *Frame) execDetachedClosure(st *State, fl *ast.FuncLit) {
+	e := fr.e
+	sig := fr.info.TypeOf(fl).(*types.Signature)
+	s2 := st.Clone()
+	nf := &Frame{e: e, fn: fr.fn, info: fr.info, fc: fr.fc, parent: fr, depth: fr.depth + 1, top: fr.top, entry: fr.entry, inClosure: true, labels: fr.labels}
+	for i := 0; i < sig.Params().Len(); i++ {
+		p := sig.Params().At(i)
+		v := Fresh("cp$"+p.Name(), e.sortOf(p.Type()))
+		s2.Assume(e.typeFacts(v, p.Type(), s2))
+		s2.vars[p] = v
+	}
+	var results []*types.Var
+	for i := 0; i < sig.Results().Len(); i++ {
+		r := sig.Results().At(i)
+		if r.Name() == "" {
+			results = append(results, types.NewVar(fl.Pos(), nil, fmt.Sprintf("cres%d", i), r.Type()))
+		} else {
+			results = append(results, r)
+		}
+	}
+	nf.results = results
+	for _, rv := range results {
+		s2.vars[rv] = e.zeroValue(rv.Type())
+	}
+	base := len(s2.defers)
+	for _, o := range nf.execBlock(s2, fl.Body.List) {
+		if o.kind == oNormal || o.kind == oReturn {
+			nf.runDefers(o.st, base)
+		}
+	}
 }
 
 func (fr *Frame) inlineClosure(st *State, fl *ast.FuncLit, call *ast.CallExpr) []*Term {
